@@ -160,7 +160,12 @@ def bounded(arg):
     from pedal.tifa import tifa_analysis
     seq_programs = [INTRO[0], "print(undefined_name)\nunused = 1\n", INTRO[2], "x = 1\nx = 'a' + 1\n",
                     "import math\ny = math.tau * 2 + 1\nmath.tau = 'six-ish'\nprint(y)\n", "import math\nprint(math.tau + 1)\n",
-                    "vals = [1]\nvals.append('a')\nprint(vals[0] + 1)\n"]
+                    "vals = [1]\nvals.append('a')\nprint(vals[0] + 1)\n",
+                    "def shout(words: list) -> str:\n    return words[0].upper()\n\ndef total(values: list[int]) -> int:\n    return sum(values)\n\n"
+                    "print(shout(['a', 'b']))\nprint(total([1, 2]))\n",
+                    "def shout(words: list) -> str:\n    return words[0].upper()\nprint(shout(['a', 'b']))\n",
+                    "def total(values: list[int]) -> int:\n    return sum(values)\nprint(total([1, 2]))\n",
+                    "def keys(d: dict[str, int]) -> list[str]:\n    return list(d.keys())\nprint(keys({'a': 1}))\n"]
 
     def fresh_issues(code):
         clear_report()
@@ -192,7 +197,7 @@ def bounded(arg):
     return {'name': 'B-tifa-robust', 'bound': '%d programs: %d statement/expression forms of Python 3.12, %d introductory programs '
             '(builtin functions, methods of str/list/dict, branches, loops, functions, imports), every builtin name TIFA knows read '
             'and called; %d calls of every known builtin function and every public method of str/list/dict/int/float/tuple/set with 0-2 '
-            'positional arguments and each documented keyword (analysis must complete); each analysed 3 times; 49 ordered pairs (A, B) of 7 programs: A alone = A, B, A on one report = A on a new report after B' % (
+            'positional arguments and each documented keyword (analysis must complete); each analysed 3 times; 121 ordered pairs (A, B) of 11 programs: A alone = A, B, A on one report = A on a new report after B' % (
                 len(programs), len(FORMS), len(INTRO), len(calls)),
             'evaluations': evaluations, 'distinct_nontrivial': len(distinct),
             'rule': 'distinct = (kind, program prefix)', 'samples': samples, 'failures': failures}
